@@ -4,14 +4,17 @@ from props import common, generic, tree_common as tc
 
 def run(rep):
     return generic.run_generic(
-        rep, [(tc.GT, 'new group'), (tc.GT, 'extend flag')],
+        rep, [(tc.GT, 'new group'), (tc.GT, 'extend flag')] + tc.MATCHER_FUNCS,
         structural=[tc.pass_order, tc.grouping_frame, tc.identity_side_conditions],
         assumptions=['group_tokens(cls, open_idx, close_idx) creates ONE group that owns exactly tokens[open_idx..close_idx] '
                      '(proved): its first child is the opener and its last child the closer whenever the driver passes '
                      'the indices of a matching opener/closer',
-                     'that _group_matching passes exactly the pairs of the textbook stack matcher (index offset correction, '
-                     'recursion into groups of earlier kinds only) is covered by the bounded stand-in: an independent stack '
-                     'matcher compared with the parsed tree on every enumerated input; not yet under contract',
+                     '_group_matching (all six classes): loop invariant "current list = processed prefix ++ unvisited rest of '
+                     'the snapshot", sorted stack of open positions below the current position, hence 0 <= open_idx < '
+                     'close_idx < len at every group_tokens call, the group ends with the visited closing token, every '
+                     'sub-group of another class is descended into, no exception (proved).  That the popped position holds '
+                     'the matching OPENER token (stack entries <-> tokens) is not expressed by the contract: that half, and '
+                     'the comparison with an independent stack matcher, is the bounded stand-in',
                      'later passes never absorb a delimiter: bounded stand-in (+ the two repaired call sites)'],
         trusted=['ownership-based local invariants (methodology)'],
         extra_functions=['sqlparse.engine.grouping._group_matching', 'sqlparse.engine.grouping._group'])
